@@ -70,14 +70,25 @@ CLASH = {"items", "keys", "values", "get", "pop", "update", "clone", "as_dict"}
 # ---------------------------------------------------------------------------------------------
 TYPES = {
     "int": ("int", [("3", 3, "3", "int:3"), ("0", 0, "0", "int:0"), ("17", 17, "17", "int:17"), ("-4", -4, "-4", "int:-4")]),
-    "str": ("str", [("abc", "abc", "'abc'", "str:'abc'"), ("7", "7", "'7'", "str:'7'"), ("x y", "x y", "'x y'", "str:'x y'")]),
+    "str": ("str", [("abc", "abc", "'abc'", "str:'abc'"), ("7", "7", "'7'", "str:'7'"), ("x y", "x y", "'x y'", "str:'x y'"),
+                    ("notes.txt", "notes.txt", "'notes.txt'", "str:'notes.txt'")]),
     "float": ("float", [("2.5", 2.5, "2.5", "float:2.5"), ("3", 3, "3.0", "float:3.0"), ("-0.5", -0.5, "-0.5", "float:-0.5")]),
     "bool": ("bool", [("true", True, "True", "bool:True"), ("false", False, "False", "bool:False")]),
     "optint": ("Optional[int]", [("null", None, "None", None), ("5", 5, "5", "int:5"), ("12", 12, "12", "int:12")]),
     "listint": ("List[int]", [("[1, 2]", [1, 2], "[1, 2]", "list:[int:1,int:2]"), ("[]", [], "[]", "list:[]"), ("[7]", [7], "[7]", "list:[int:7]")]),
     "literal": ('Literal["u", "v"]', [("u", "u", "'u'", "str:'u'"), ("v", "v", "'v'", "str:'v'")]),
     "enum": ("Color", [("red", "red", "Color.red", "enum:red"), ("blue", "blue", "Color.blue", "enum:blue")]),
+    # types that accept a plain string through the type-hint action; several values NAME EXISTING FILES of the working
+    # directory (text / number / JSON content, see FILES): the callee must receive the name, never the content
+    "intstr": ("Union[int, str]", [("notes.txt", "notes.txt", "'notes.txt'", "str:'notes.txt'"), ("count.txt", "count.txt", "'count.txt'", "str:'count.txt'"),
+                                   ("data.json", "data.json", "'data.json'", "str:'data.json'"), ("abc", "abc", "'abc'", "str:'abc'"), ("5", 5, "5", "int:5")]),
+    "any": ("Any", [("data.json", "data.json", "'data.json'", "str:'data.json'"), ("count.txt", "count.txt", "'count.txt'", "str:'count.txt'"),
+                    ("notes.txt", "notes.txt", "'notes.txt'", "str:'notes.txt'"), ("abc", "abc", "'abc'", "str:'abc'")]),
+    "strlist": ("Union[str, List[str]]", [("notes.txt", "notes.txt", "'notes.txt'", "str:'notes.txt'"), ("data.json", "data.json", "'data.json'", "str:'data.json'"),
+                                          ("abc", "abc", "'abc'", "str:'abc'")]),
 }
+# files that exist in the working directory while the cases run
+FILES = {"notes.txt": "hello world\n", "count.txt": "42\n", "data.json": '{"injected": true}\n'}
 TYPE_KEYS = list(TYPES)
 
 # ordinary names: pairwise prefix-free, none a prefix of two options of a parent parser, none equal to a CLI key
@@ -90,7 +101,7 @@ METHODS = ["fit", "run", "go", "stop", "evaluate"]
 # the CLI's own vocabulary (fixed-seed sweep only)
 VOCAB = ["config", "subcommand", "help", "print_config", "p", "pr", "print_", "c", "h", "print_c", "fit", "run"]
 
-PREAMBLE = '''from typing import Optional, List, Literal
+PREAMBLE = '''from typing import Any, Optional, List, Literal, Union
 from enum import Enum
 
 LOG = []
@@ -557,8 +568,8 @@ def gen_sig(rng, n, names, extras=True):
     for i in range(n):
         t = rng.choice(TYPE_KEYS)
         has_d = rng.random() < 0.55
-        if t in ("enum", "float") and names[i] in CLASH:
-            t = rng.choice([k for k in TYPE_KEYS if k not in ("enum", "float")])      # open finding C12-namespace-member-name-unconverted
+        if t in ("enum", "float", "intstr", "any", "strlist") and names[i] in CLASH:
+            t = rng.choice([k for k in TYPE_KEYS if k not in ("enum", "float", "intstr", "any", "strlist")])      # open finding C12-namespace-member-name-unconverted
         ps.append({"name": names[i], "kind": "ko" if i >= n - n_ko else "pk", "type": t,
                    "default": rng.randrange(len(TYPES[t][1])) if has_d else None})
     pk = [p for p in ps if p["kind"] == "pk"]
@@ -1013,7 +1024,7 @@ def vocab_cases():
 def run(ctx: Ctx):
     repo_python_path()
     ctx.rule = ("case = (component tree: function | class with 0-3 methods | list | nested dict; signature of 0-6 typed parameters from "
-                "{int,str,float,bool,Optional[int],List[int],Literal,Enum}, with/without default, positional-or-keyword / keyword-only, plus "
+                "{int,str,float,bool,Optional[int],List[int],Literal,Enum,Union[int,str],Any,Union[str,List[str]]} (string values include names of files that exist in the working directory), with/without default, positional-or-keyword / keyword-only, plus "
                 "private, *args, **kwargs; assignment of given values; channel argv | --config | mixed; as_positional) run through the real "
                 "auto_cli from a generated module; compared with the Lean model (parser structure + call log + return value + error class) and "
                 "with the binding expected from the signature; non-trivial = the component was really called; distinct by (module source, argv)")
@@ -1024,7 +1035,9 @@ def run(ctx: Ctx):
     ]
     ctx.lean_build(extractors=["cli_tables"])
     tmp = tempfile.mkdtemp(prefix="c12cfg_")
+    cwd = os.getcwd()
     try:
+        enter_workdir(tmp)
         from ..lib import corpus as corpus_mod
 
         corpus_cases = [c["case"] for c in corpus_mod.load(ctx.prop)]
@@ -1062,8 +1075,17 @@ def run(ctx: Ctx):
             else:
                 ctx.stale_findings.append(f["id"])
     finally:
+        os.chdir(cwd)
         shutil.rmtree(tmp, ignore_errors=True)
         cleanup()
+
+
+def enter_workdir(tmp):
+    """the cases run in a directory that contains FILES: values that name them are ordinary strings for the callee"""
+    for name, content in FILES.items():
+        with open(os.path.join(tmp, name), "w") as f:
+            f.write(content)
+    os.chdir(tmp)
 
 
 def replay(ctx: Ctx, body):
@@ -1074,9 +1096,12 @@ def replay(ctx: Ctx, body):
         return 1
     case = rp["case"]
     tmp = tempfile.mkdtemp(prefix="c12cfg_")
+    cwd = os.getcwd()
     try:
+        enter_workdir(tmp)
         argv, real = evaluate(case, tmp)
         print(tree_src(case["tree"])[len(PREAMBLE):])
+        print("working directory contains:", sorted(FILES))
         print("auto_cli(<component>, args=%r, as_positional=%r)" % (argv, case["as_pos"]))
         print("observed:", json.dumps(real, ensure_ascii=True)[:1000])
         print("expected:", json.dumps(expectation(case), ensure_ascii=True)[:600])
@@ -1084,5 +1109,6 @@ def replay(ctx: Ctx, body):
         print("deviation:", dev)
         return 1 if dev else 0
     finally:
+        os.chdir(cwd)
         shutil.rmtree(tmp, ignore_errors=True)
         cleanup()
